@@ -3,7 +3,12 @@ import concurrent.futures
 import hashlib
 import re
 
+import os
+import sys
 import vlib
+
+sys.path.insert(0, os.path.dirname(os.path.abspath(__file__)))
+from t1 import run_t1  # noqa: E402  (T1 leaf translator tie, checks/t1.py)
 
 LEVEL = "proof"
 
@@ -36,8 +41,10 @@ THEOREMS = [
     "Mpc.C18_round3_output_wf",
     "Mpc.C18_sha2pc_correct_given_circuit_partial",
     "Mpc.C18_hist_frame",
+    "Mpc.C18_hist_failures_erased",
     "Mpc.C18_hist_isolation",
     "Mpc.C18_hist_complete_session",
+    "Mpc.C18_hist_faults_rejected",
     "Mpc.C18_hist_correct_partial",
     "Mpc.C01_decode",
     "Mpc.C06_co_delivers",
@@ -74,7 +81,16 @@ NEED_HIST = (
     + ["hist_e4_session-memory", "hist_e4_session-bytes"]
     # a round-3 message consumed (in memory / re-encoded at that moment) AFTER a later round 3 of another session
     + ["hist_e4_msg3-memory_after-foreign-round3", "hist_e4_msg3-bytes_after-foreign-round3",
-       "hist_e4_msg3-memory_own-round3-latest", "hist_e4_msg3-bytes_own-round3-latest"])
+       "hist_e4_msg3-memory_own-round3-latest", "hist_e4_msg3-bytes_own-round3-latest"]
+    # FAILING steps inside the histories: every class, answered with an error, placed before the undisturbed
+    # step of the same round (= retry) and after it, followed by rounds of other sessions; a round 3 whose
+    # random source failed followed by two more successful round 3 of the process
+    + ["hist_fault_%s_err" % c for c in ("g1_rng", "e2_rng", "g3_rng", "g3_foreign-msg", "e4_foreign-msg",
+                                         "e4_foreign-state", "e2_malformed", "g3_malformed", "e4_malformed")]
+    + ["hist_fault_g3_rng_key", "hist_fault_g3_rng_r", "hist_fault_g3_rng_labels", "hist_fault_g3_rng_then-two-round3",
+       "hist_fault_rng_kind0", "hist_fault_rng_kind1", "hist_fault_rng_kind2", "hist_fault_malformed_cut",
+       "hist_fault_malformed_extended", "hist_fault_before-own-step", "hist_fault_after-own-step",
+       "hist_fault_followed-by-round123-of-other-session", "hist_fault_followed-by-step-of-other-session"])
 
 
 def const_exprs(*srcs):
@@ -183,6 +199,7 @@ def distinct(ctx, ops):
 
 def run(ctx):
     ctx.prove("MpcVerif.Props.C18", THEOREMS)
+    run_t1(ctx, ["C18"])          # sha2pc.pointSign = Sha2pc.pointSign
     if ctx.tier == "thorough":
         ctx.leanchecker("MpcVerif.Props.C18")
     ctx.build_drv()
@@ -199,10 +216,11 @@ def run(ctx):
             jobs.append(("proto", 2 if quick else 6, s, "", [],
                          "real payloads of full sessions, all curves (seed %d)" % s))
         # 2b. HISTORIES: 2..4 sessions (same / different curves) in one process, rounds interleaved in every
-        # kind of order, inputs consumed in memory and through bytes, the whole process observed after every step
+        # kind of order, inputs consumed in memory and through bytes, FAILING steps (random source, foreign / mutated
+        # message) in between, the whole process observed after every step
         for s in ((ctx.seed, ctx.seed + 500) if quick else (ctx.seed, ctx.seed + 500, ctx.seed + 1000, ctx.seed + 1500)):
             jobs.append(("hist", 8 if quick else 24, s, "", [],
-                         "histories of several sessions in one process: state after every step = Proc.run (seed %d)" % s))
+                         "histories of several sessions in one process, failing steps included: status and state after every step = Proc.runD (seed %d)" % s))
         # 3. codec: structured payloads and mutation fuzz of every encoded message, one shard per curve
         for s in seeds:
             for cv in CURVES:
@@ -259,9 +277,17 @@ def run(ctx):
         "four curves), 5 interleaving shapes (sequential, round-robin = all round 1, all round 2, ..., the same reversed, "
         "batching garbler, uniformly random merges), each step consuming each input in memory or through bytes encoded at "
         "that moment (seeded), round 4 repeated at later points and once more for every session after all other steps; "
+        "FAILING STEPS in every history: the random source of round 1, of round 2 and (twice) of round 3 fails at a "
+        "seeded byte offset inside what the round draws (uniform + the boundaries key | R | input labels of round 3; "
+        "error without bytes / error with the bytes before the offset / short read then error), one foreign input "
+        "(round-2 message, round-3 message, evaluator state of another session of the history) and one message cut or "
+        "extended in transit (to 0 / 1 / 10 / documented length - 1 / seeded length, + 1 byte) in rotation; a failing "
+        "step stands right before the undisturbed step of the same round (= retry with a good source) or at a seeded "
+        "later point, steps of the other sessions follow; "
         "after EVERY step the deep hash of every live message/session object of every session is compared with its "
         "production-time value, with the isolated run of the same session and (correspondence) with Proc.run of the "
-        "model. distinct = distinct dec/enc/ceval/hist op lines")
+        "model (Proc.runD: a step that fails leaves the whole process state as it was, its status is err). "
+        "distinct = distinct dec/enc/ceval/hist op lines")
     ctx.assumptions += [
         "point decompression (elliptic.UnmarshalCompressed) is an abstract function in the theorems (round-2 canonicity "
         "assumes it returns the requested parity); the driver instantiates it with y^2 = x^3 - 3x + b over the four NIST "
@@ -273,6 +299,15 @@ def run(ctx):
         "histories: the model's rounds are PURE functions, so frame/isolation hold in the model by construction; that "
         "the real process behaves so is decided on the sampled histories (single goroutine; the values a session "
         "produces alone are the model's round-function table, compared as deep hashes of all reachable fields)",
+        "failing random source: the Lean round functions take the drawn values as arguments, so `a round whose source "
+        "fails returns an error` is the DEFINITION of the model's x1/x2/x3 (every read in GarblerRound1/3, "
+        "EvaluatorRound2, GenerateCOSenderSetup, BuildCOChoices, Circuit.Garble, ot.NewLabel is followed by an error "
+        "return); it is tied to the real code by the hist correspondence (status err, state unchanged) at every sampled "
+        "offset/kind, not derived.  ot.NewLabel accepts a short read without error (rand.Read, no ReadFull): a short "
+        "read that is the LAST read of round 3 would go unnoticed; the generator keeps short reads 16 bytes away from "
+        "the end (label entropy is property C01's business)",
+        "a foreign value is consumed through bytes only between sessions of one curve (Encode* of a value of a wider "
+        "curve with the narrower curve's width is outside the encoders' domain, see the writeFixedBigInt assumption)",
         "that the embedded 127806-gate circuit computes SHA-256(a xor b) is VALIDATED by evaluation (Go Compute, harness "
         "evaluator, Lean Circuit.compute vs crypto/sha256), not proved",
         "encoders: big integers wider than the curve's field make writeFixedBigInt panic; excluded by the well-formedness "
@@ -287,14 +322,21 @@ def run(ctx):
         "length prefixes only in minimal form); rounds 2/3/4 never crash on any state/message, off-curve stored points are "
         "errors; a round run from the bytes of state and message equals the round run from the originals (every boundary, "
         "either party); foreign session ids and curve names are rejected; the evaluator outputs circuit(a,b) (composition "
-        "of C01_decode and C06_co_delivers); HISTORIES: in a process holding several sessions a step changes only the "
-        "slots it produces (frame), the state of a session after any interleaving is what its own steps produce "
-        "(isolation, induction over the schedule), every complete session inside any history ends with the values of its "
-        "isolated run and the circuit's function of its own inputs, inputs consumed in memory or through bytes. Tie: real Encode*/Decode* vs the Lean model on real and mutated payloads of "
+        "of C01_decode and C06_co_delivers); HISTORIES WITH FAILING STEPS: in a process holding several sessions a step "
+        "changes only the slots it produces and a step that does not succeed (failing random source, foreign or mutated "
+        "message) changes NOTHING (frame), every history equals the history of its successful events and, when the "
+        "disturbed events fail, the failure-free history of the undisturbed ones (failures erased, induction over the "
+        "schedule), the state of a session after any interleaving is what its own undisturbed steps produce (isolation), "
+        "every session whose undisturbed steps are rounds 1,2,3,4+ ends -- whatever failed in between, its own rounds "
+        "included (retry) -- with the values of its isolated run and the circuit's function of its own inputs; for the "
+        "sha2pc rounds a failing source and a cut/extended message fail in every state, a foreign message/state fails "
+        "when the session ids differ. Tie: real Encode*/Decode* vs the Lean model on real and mutated payloads of "
         "P-224/256/384/521, outcome ok(fields, re-encoding)|err|panic compared line by line; source facts require the five "
         "repairs 0e7671a/68f93f2/d9a1171/2eb87d5/217fb4c. Oracle on the real code: digest = sha256(a xor b); restart through "
         "Encode/Decode at every boundary gives byte-identical downstream messages and the same digest; decoders and "
         "continued rounds never panic; foreign session/curve rejected; NO accepted input differs from the re-encoding of "
         "what it decodes to; in histories of 2..4 interleaved sessions no returned message/session object ever changes "
-        "after its production, every step gives the isolated run's value, every digest (also of messages consumed after "
-        "later rounds of other sessions, in memory and re-encoded) is sha256(a xor b) = Lean Circuit.compute.")
+        "after its production -- in particular not after a FAILED step of any session --, every disturbed step is "
+        "answered with an error (no value, no crash), every undisturbed step (the retry of a failed round included) gives "
+        "the isolated run's value, every digest (also of messages consumed after later rounds of other sessions, in "
+        "memory and re-encoded) is sha256(a xor b) = Lean Circuit.compute.")
